@@ -5,5 +5,7 @@ out = subprocess.run(['git','-C','/repo','log','--reverse','--format=%H %s','4a9
 hooks=[l.split(' ',1)[0] for l in out if l and not l.split(' ',1)[1].startswith('fix:')]
 m=json.load(open('/verif/MANIFEST.json'))
 m['hooks']['source_commits']=hooks
+for e in m['engines']:
+    if e['name']=='govc': e['serves_properties']=sorted(c['property_id'] for c in m['checks'])
 json.dump(m,open('/verif/MANIFEST.json','w'),indent=1)
 print(len(hooks),'hook commits;', len(out)-len(hooks),'fix commits')
